@@ -26,6 +26,10 @@ ALPHABETS = {
     # digits 0,1,9, whitespace, one foreign character
     ('polish', 'reduced'): list('NKUMSVJIxymnFGab 019#'),
     ('standard', 'reduced'): list('~&$PXL=!xyabFGAB() 01#'),
+    # tiny alphabets for deep inputs (one binary and one unary operator, a quantifier, a variable,
+    # two predicates, a constant)
+    ('polish', 'tiny'): list('KNVxFGm'),
+    ('standard', 'tiny'): list('&LxFGa'),
     ('polish', 'full'): list('TNKACEUBMLSVJIxyzvmnosFGHOabcde 0123456789#'),
     ('standard', 'full'): list('*~&V><$%PNXL!=xyzvabcdFGHOABCDE() 0123456789#'),
 }
